@@ -439,6 +439,14 @@ def split_equations_iter(model: str) -> Iterator[str]:
             # Reset the buffer to collect another equation
             buffer = []
 
+    # An opening code fence without a closing one would otherwise swallow the
+    # rest of the script without a word
+    if not complete_verbatim_block:
+        raise ParserError(
+            'Failed to find the closing fence (```) of the verbatim block: '
+            + '\n'.join(buffer)
+        )
+
     # If `unmatched_parentheses` is non-zero at this point, there must have
     # been an error in the input script's syntax. Throw an error
     if unmatched_parentheses != 0:
